@@ -54,6 +54,12 @@ func (w *hostileWorld) controlOK() bool {
 	case ok := <-done:
 		return ok
 	case <-time.After(2 * time.Second):
+	}
+	// slow is not dead: on a loaded machine the answer may simply be late
+	select {
+	case ok := <-done:
+		return ok
+	case <-time.After(8 * time.Second):
 		return false
 	}
 }
